@@ -82,17 +82,41 @@ func VerifHarness_C07_inherit() {
 			delete(m.matches, k)
 		})
 	parents := []string{"p0", "p1"}
-	for step := 0; step < kmax; step++ {
-		switch verifChoose("op", 6) {
+	// PHASED: a fixed prefix (labels for both parents, one selector, one item with parents) precedes
+	// the K free steps, so that short free suffixes reach states that need several set-up steps
+	// (e.g. re-ordering the parents of an item whose parents define the same label differently).
+	prefix := []int{}
+	if verifParam("PHASED", 0) == 1 {
+		prefix = []int{2, 2, 4, 0}
+	}
+	for step := 0; step < len(prefix)+kmax; step++ {
+		op := 0
+		if step < len(prefix) {
+			op = prefix[step]
+		} else {
+			op = verifChoose("op", 6)
+		}
+		switch op {
 		case 0:
-			it := verifChoose("item", 2)
-			labels := verifLabelMap("item")
+			it := 0
+			var labels map[string]string
+			if step < len(prefix) {
+				labels = map[string]string{} // set-up: item 0 inherits everything
+				if verifBool("item.has-b") {
+					labels["b"] = verifVal("item.b")
+				}
+			} else {
+				it = verifChoose("item", 2)
+				labels = verifLabelMap("item")
+			}
 			var ps []string
-			switch verifChoose("parents", 3) {
+			switch verifChoose("parents", 4) {
 			case 1:
 				ps = []string{"p0"}
 			case 2:
 				ps = []string{"p1", "p0"}
+			case 3:
+				ps = []string{"p0", "p1"}
 			}
 			m.itemLabels[it] = labels
 			m.itemParents[it] = ps
@@ -103,8 +127,17 @@ func VerifHarness_C07_inherit() {
 			m.itemParents[it] = nil
 			idx.DeleteLabels(it)
 		case 2:
-			p := parents[verifChoose("parent", 2)]
-			labels := verifLabelMap("parent")
+			pi := step // in the prefix: first p0, then p1
+			if step >= len(prefix) {
+				pi = verifChoose("parent", 2)
+			}
+			p := parents[pi]
+			var labels map[string]string
+			if step < len(prefix) {
+				labels = map[string]string{"a": verifVal("parent.a")} // set-up: both parents define label a
+			} else {
+				labels = verifLabelMap("parent")
+			}
 			m.parentLabels[p] = labels
 			idx.UpdateParentLabels(p, labels)
 		case 3:
@@ -112,7 +145,10 @@ func VerifHarness_C07_inherit() {
 			delete(m.parentLabels, p)
 			idx.DeleteParentLabels(p)
 		case 4:
-			s := verifChoose("sel", 2)
+			s := 0
+			if step >= len(prefix) {
+				s = verifChoose("sel", 2)
+			}
 			text := verifSelectors[verifChoose("seltext", nsel)]
 			sel, err := selector.Parse(text)
 			verifAssert("selector-table-parses", err == nil)
